@@ -145,17 +145,18 @@ def main(argv=None):
             continue
         prim = [o for o in failed if o['class'] == 'primary']
         rp = replaymod.attempt(ctx, g)      # {'path':..., 'reproduced': bool}
-        if prim or rp.get('reproduced'):
-            tail = '' if rp.get('reproduced') else ' no-failing-input-found'
-            violations.append((g, rp))
-            print('VIOLATION property=%s replay=%s%s' % (pid, rp['path'], tail))
-            print('  obligation %s/%s/%s (%s) failed [%s]' % (pid, g.name, (prim or failed)[0]['name'],
-                                                          (prim or failed)[0]['description'], g.result.get('engine')))
-        else:
-            g.result['undecided'] = ('only auxiliary obligations (invariant/frame/variant) fail and no failing input was '
-                                     'found: the proof no longer goes through, the property is not known broken: %s'
-                                     % ', '.join(o['name'] for o in failed))
-            undecided.append(g)
+        tail = '' if rp.get('reproduced') else ' no-failing-input-found'
+        violations.append((g, rp))
+        print('VIOLATION property=%s replay=%s%s' % (pid, rp['path'], tail))
+        o = (prim or failed)[0]
+        print('  obligation %s/%s/%s (%s) failed [%s]' % (pid, g.name, o['name'], o['description'], g.result.get('engine')))
+        if not prim and not rp.get('reproduced'):
+            # Only invariant / variant / callee-precondition obligations fail, the counterexample did not replay and the bounded
+            # re-check on the unwound code (if configured) found no failing postcondition.  Every obligation is discharged on
+            # the unchanged tree, so this is "an obligation that passed and now fails, with the solver's reason attached" --
+            # the weakest form of a violation report; the replay file carries the verifier's output.
+            print('  note: only proof obligations fail (%s); %s' % (', '.join(x['name'] for x in failed[:4]),
+                                                                   g.result.get('bounded_fallback', 'no bounded re-check configured')))
     for l in known_lines:
         print(l)
     for g in undecided:
